@@ -267,6 +267,23 @@ func (n *Node) acceptLoop(ln net.Listener) {
 			n.mu.Lock()
 			n.Closes++
 			n.mu.Unlock()
+			// The product's replica process exits at this point, and whatever was
+			// waiting in its listen queue goes with it. Here the listener lives on: a
+			// connection that was queued behind this one (the loser of two simultaneous
+			// attach attempts, long since given up by its dialler) must not be served
+			// later as if it were new - it would end at once and close a replica that
+			// has been opened again in the meantime.
+			if tl, ok := ln.(*net.TCPListener); ok {
+				for {
+					tl.SetDeadline(time.Now().Add(2 * time.Millisecond))
+					stale, err := tl.Accept()
+					if err != nil {
+						break
+					}
+					stale.Close()
+				}
+				tl.SetDeadline(time.Time{})
+			}
 		}
 		close(end)
 	}
